@@ -168,6 +168,9 @@ def main(argv=None):
                     f"{h.name}: {x['status']}: {x.get('detail', '')[:300]} {x.get('tb', '')[-600:] if x['status'] == 'harness_error' else ''}")
                 continue
             tot["obligations"] += x.get("obligations", 0)
+            if x.get("truncated"):
+                inconclusive.append(f"{h.name}: a symbolic value had to be made concrete (the real code calls into C with it) and has more than "
+                                    f"{symx.CONCRETISE_MAX} possible values: enumeration cut at {x['truncated'][0]} {x['choices']}")
             if x.get("unknown_queries"):
                 tot["unknown"] += x["unknown_queries"]
                 inconclusive.append(f"{h.name}: solver returned unknown on {x['unknown_queries']} query(ies) {x['choices']}")
